@@ -259,9 +259,9 @@ func ruleTailFlush(r *Run) {
 }
 
 // statusMethods: calls of (*status.Status).Code/Message/Proto/Details/Err in fn.
-func statusMethodCalls(fn *ssa.Function) []*ssa.Call {
+func (p *Program) statusMethodCalls(fn *ssa.Function) []*ssa.Call {
 	var out []*ssa.Call
-	eachInstr(fn, func(in ssa.Instruction) {
+	p.eachInstrRegion(fn, func(_ *ssa.Function, in ssa.Instruction) {
 		c, ok := in.(*ssa.Call)
 		if !ok {
 			return
@@ -284,9 +284,9 @@ func ruleErrSameStatus(r *Run) {
 			continue
 		}
 		key := shortFunc(fn) + "/one-status"
-		calls := statusMethodCalls(fn)
+		calls := p.statusMethodCalls(fn)
 		if len(calls) == 0 {
-			r.undecided(key, fn.Pos(), "no use of a status value found")
+			r.ok(key, fn.Pos(), "the function and its helpers read no status value: nothing can disagree")
 			continue
 		}
 		// all receivers are the same status value (a status rebuilt from the primary's own code and message counts as the same)
@@ -313,7 +313,7 @@ func ruleErrSameStatus(r *Run) {
 			rv := c.Call.Args[0]
 			if recv == nil {
 				recv = rv
-			} else if recv != rv && !p.sameValue(recv, rv) && !derivedFromPrimary(rv) {
+			} else if recv != rv && !p.sameValue(recv, rv) && !p.sameOrigins(recv, rv) && !derivedFromPrimary(rv) {
 				same = false
 			}
 		}
@@ -364,7 +364,7 @@ func ruleGrpcTrailerValues(r *Run) {
 		return
 	}
 	seen := map[string]bool{}
-	eachInstr(fn, func(in ssa.Instruction) {
+	p.eachInstrRegion(fn, func(_ *ssa.Function, in ssa.Instruction) {
 		c, ok := in.(ssa.CallInstruction)
 		if !ok || calleeName(c) != "(net/http.Header).Set" {
 			return
